@@ -529,7 +529,8 @@ class SqlalchemyRender:
                 alias = None
                 if from_table.alias:
                     alias = from_table.alias.parts[-1]
-                table = sa.text(from_table.query).columns().subquery(alias)
+                # text() reads `:name` as a bind parameter, also inside of a string constant; an escaped colon is text
+                table = sa.text(from_table.query.replace(':', '\\:')).columns().subquery(alias)
                 query = query.select_from(table)
             else:
                 raise NotImplementedError(f'Select from {from_table}')
